@@ -81,6 +81,23 @@ pub enum PersistentStorageImpl {
 }
 
 impl PersistentStorageImpl {
+    /// Checks that a value about to be written to a grave goods or last will topic has the shape
+    /// `update_value` requires, so that it can be rejected before the store is modified.
+    pub fn validate_value(
+        key: &Key,
+        value: &serde_json::Value,
+        client_id: Option<ClientId>,
+    ) -> PersistenceResult<()> {
+        if key.starts_with(SYSTEM_TOPIC_ROOT_PREFIX) && client_id.is_some() {
+            if is_grave_goods_topic(key) {
+                serde_json::from_value::<Option<GraveGoods>>(value.to_owned())?;
+            } else if is_last_will_topic(key) {
+                serde_json::from_value::<Option<LastWill>>(value.to_owned())?;
+            }
+        }
+        Ok(())
+    }
+
     pub async fn update_value(
         &self,
         key: &Key,
